@@ -40,10 +40,12 @@ func agreeMemStore(w *world.World) *Finding {
 func dumpNoTime(d []world.IPState) string {
 	c := make([]world.IPState, len(d))
 	copy(c, d)
+	// PoolDesc is kept: a restarted instance must attach every IP to the same pool
+	out := ""
 	for i := range c {
-		c[i].Updated = 0
+		out += c[i].String() + " pool=" + c[i].PoolDesc + "; "
 	}
-	return fmt.Sprint(c)
+	return out
 }
 
 func restartCompare(w *world.World) *Finding {
